@@ -67,7 +67,7 @@ class RegisterData:
         :param new: The new register to add to the data
         :type new: Register
         """
-        if before == self.__root:
+        if before is self.__root:
             self.__root = new
         else:
             if before.previous:
@@ -86,7 +86,7 @@ class RegisterData:
         :param new: The new register to add to the data
         :type new: Register
         """
-        if after == self.__head:
+        if after is self.__head:
             self.__head = new
         else:
             after.next.previous = new
